@@ -178,8 +178,9 @@ func c18ctx() context.Context {
 	return ctxlog.Context(context.Background(), logger)
 }
 
-// c18bigShare: one case in c18bigShare carries 1-3 stream lines of 50-280 KiB
-// (fedgen.Inflate).
+// c18bigShare: nominally one case in c18bigShare carries 1-3 stream lines of
+// 50-280 KiB (fedgen.Inflate); measured 6.3 % (rapid's integer draws are not
+// uniform, which is why two interior values are tested instead of "== 0").
 const c18bigShare = 12
 
 func c18genManifest(t *rapid.T) (*mgen.Manifest, []string, fedgen.BigInfo) {
